@@ -87,6 +87,7 @@ LeafOK(p, lf) ==
    /\ Lean => (Len(p) <= MinDepthTab[KindAt(p)] \/ Canary(lf))
    /\ (lf.var \in PathOnlyVars) => (Len(p) = 2 /\ p[1].f = "components")
    /\ (lf.var \in ModeVars) => ModeLeafOK(p, lf)
+   /\ (lf.var \in SelfRefVars) => (Len(p) = 2 /\ p[1].f = "components" /\ p[2].f = "schemas" /\ p[2].pos = 1)
    /\ \A i \in DOMAIN p : IsPos2(p[i]) => Len(p) - i < Pos2Tail
    (* a security scheme reference is only meaningful as a component *)
    /\ TRUE
